@@ -555,3 +555,79 @@ Proof.
     cbn [app]. rewrite <- (flat_map_map (fun z : ipix * nat => (snd (fst z), snd z)) native_chunk), zpixels_pix. reflexivity.
   - intros acc [[i [y x]] s] _. cbn [fst snd]. rewrite for_range2_append. reflexivity.
 Qed.
+
+(* ------------------------------------------------------------------ decorator, uniform over-sampling *)
+Lemma block_one (ps c : RR) : @block ROps ps c 1 = [c].
+Proof.
+  unfold block. cbn [seq flat_map map app]. f_equal. unfold sub_centre, half, one, two. rewrite !ofNat_R.
+  destruct c as [cy cx]. cbn [fst snd add sub mul div opp ofZ ROps T INR]. f_equal; field.
+Qed.
+Lemma mean_single (v : R) : @mean ROps [v] = v.
+Proof. rewrite mean_R. cbn. field. Qed.
+Lemma spec_via_func_ones (f : RR -> R) m (ps og : RR) ss :
+  Forall (fun s => s = 1%nat) ss -> length ss = length (unmasked m) ->
+  @spec_via_func ROps f m ps og ss = map f (@spec_centres ROps m ps og).
+Proof.
+  intros H1 Hl. unfold spec_via_func. rewrite <- (spec_centres_length m ps og) in Hl.
+  revert Hl H1. generalize (@spec_centres ROps m ps og). induction ss as [|s ss IH]; intros [|c l] Hl H1; cbn in Hl; try discriminate; auto.
+  inversion H1; subst. cbn [combine map fst snd]. rewrite block_one. cbn [map]. rewrite mean_single. f_equal.
+  apply IH; [now injection Hl|assumption].
+Qed.
+Lemma all_ones_of_sum ss : subs_ok ss -> list_sum ss = length ss -> Forall (fun s => s = 1%nat) ss.
+Proof.
+  intros Hs. induction Hs as [|s ss H1 Hs IH]; intros Hsum; [constructor|].
+  rewrite list_sum_cons in Hsum. cbn [length] in Hsum.
+  assert (length ss <= list_sum ss)%nat.
+  { clear -Hs. induction Hs as [|a l Ha Hl IHl]; [cbn; lia|]. rewrite list_sum_cons. cbn [length]. lia. }
+  constructor; [lia|]. apply IH. lia.
+Qed.
+Lemma subs_ok_repeat s n : (1 <= s)%nat -> subs_ok (repeat s n).
+Proof. intros H. unfold subs_ok. apply Forall_forall. intros x Hx. apply repeat_spec in Hx. lia. Qed.
+
+Theorem decorator_uniform_int (f : RR -> R) m (ps og : RR) s :
+  (1 <= s)%nat -> ps_okR ps ->
+  @decorated ROps f m ps og (@grid_slim_via_mask ROps m ps og) (@OSUniformInt ROps s)
+  = Ok (@spec_via_func ROps f m ps og (repeat s (length (unmasked m)))).
+Proof.
+  intros Hs Hps. unfold decorated, perform_over_sampling, full_sub_size. rewrite pixels_in_mask_length.
+  destruct (Nat.eqb s 1) eqn:E; cbn [negb].
+  - apply Nat.eqb_eq in E. subst s. rewrite centres_formula by exact Hps. f_equal. symmetry. apply spec_via_func_ones.
+    + apply Forall_forall. intros x Hx. now apply repeat_spec in Hx.
+    + apply repeat_length.
+  - f_equal. apply via_func_is_block_means; [split|exact Hps]; [apply repeat_length|apply subs_ok_repeat; exact Hs].
+Qed.
+Theorem decorator_uniform_map (f : RR -> R) m (ps og : RR) ss :
+  shape_okP m ss -> ps_okR ps ->
+  @decorated ROps f m ps og (@grid_slim_via_mask ROps m ps og) (@OSUniformMap ROps ss)
+  = Ok (@spec_via_func ROps f m ps og ss).
+Proof.
+  intros Hsh Hps. pose proof Hsh as [Hl Hs]. unfold decorated.
+  destruct (perform_over_sampling m (@OSUniformMap ROps ss)) eqn:E; cbn [negb].
+  - f_equal. apply via_func_is_block_means; assumption.
+  - rewrite centres_formula by exact Hps. f_equal. symmetry. apply spec_via_func_ones; [|exact Hl].
+    unfold perform_over_sampling in E. rewrite pixels_in_mask_length, <- Hl in E.
+    assert (E' : list_sum ss = length ss).
+    { destruct ss as [|s [|s2 ss]].
+      - reflexivity.
+      - apply negb_false_iff, Nat.eqb_eq in E. cbn. lia.
+      - apply negb_false_iff, Nat.eqb_eq in E. exact E. }
+    apply all_ones_of_sum; assumption.
+Qed.
+(* sub-size one: the decorated function is the plain evaluation on whatever grid values were passed *)
+Theorem decorator_sub_size_one (f : RR -> R) m (ps og : RR) (grid_values : list RR) :
+  @decorated ROps f m ps og grid_values (@OSUniformInt ROps 1) = Ok (map f grid_values).
+Proof. reflexivity. Qed.
+Theorem decorator_sub_size_map_ones (f : RR -> R) m (ps og : RR) (grid_values : list RR) ss :
+  Forall (fun s => s = 1%nat) ss -> length ss = length (unmasked m) ->
+  @decorated ROps f m ps og grid_values (@OSUniformMap ROps ss) = Ok (map f grid_values).
+Proof.
+  intros H1 Hl. unfold decorated.
+  assert (E : perform_over_sampling m (@OSUniformMap ROps ss) = false); [|now rewrite E].
+  unfold perform_over_sampling. rewrite pixels_in_mask_length, <- Hl.
+  assert (Hsum : list_sum ss = length ss).
+  { clear Hl. induction H1; [reflexivity|]. subst. rewrite list_sum_cons. cbn [length]. lia. }
+  destruct ss as [|s [|s2 ss]].
+  - reflexivity.
+  - inversion H1; subst. reflexivity.
+  - rewrite Hsum. now rewrite Nat.eqb_refl.
+Qed.
